@@ -2,3 +2,4 @@ pub mod join;
 pub mod watermark;
 pub mod window;
 pub mod store;
+pub mod agenda;
